@@ -24,8 +24,8 @@ func init() {
 	register(&propDef{
 		ID: "C14", NeedCG: true,
 		Meta: propMeta{Level: "other", Assumptions: commonAssumptions,
-			Explanation: "Decides the provenance of the validator set against which fast-forward signatures are counted (argument of CheckBlock in core.fastForward): it must be data-dependent on state the node already trusted (core.validators / core.peers / core.genesisPeers / Store.GetPeerSet) and not exclusively on the response. On the pinned tree this is violated (F-C14-1, protocol-level, recorded as known finding)."},
-		Rules: []ruleFunc{c14known},
+			Explanation: "Decides the provenance of the validator set against which fast-forward signatures are counted (argument of CheckBlock in core.fastForward): it must be data-dependent on state the node already trusted (core.validators / core.peers / core.genesisPeers / Store.GetPeerSet) and not exclusively on the response. On the pinned tree this is violated (F-C14-1, protocol-level, recorded as known finding). C14.source decides the only mitigation that exists today: fast-forward requests go exclusively to the addresses of the node's own peer list, and the response handed to core.fastForward is one of those answers (so the responder is at least a configured peer — which does not make its self-declared validator set trustworthy)."},
+		Rules: []ruleFunc{c14known, c14source},
 	})
 }
 
@@ -373,5 +373,46 @@ func c14known(p *Prog, r *Report) {
 		r.Check(ok, rule, "core.fastForward:CheckBlock-peerset-provenance", p.ipos(c), fnName(fn),
 			"signatures are counted against a set derived from trusted state",
 			"signatures are counted against peers.NewPeerSet(frame.Peers), a set taken from the response itself; docs/fastsync.rst says 'against the known set of validators'. A single responder can ship a self-made validator set signed by itself")
+	}
+}
+
+
+// C14.source: who can be the responder at all.
+func c14source(p *Prog, r *Report) {
+	const rule = "C14.source"
+	r.Rule(rule, 2, "fast-forward requests are sent only to NetAddr of the node's own peers; the response adopted is one of those answers")
+	gb := p.Func(NODE, "Node", "getBestFastForwardResponse")
+	nf := p.Func(NODE, "Node", "fastForward")
+	if gb == nil || nf == nil {
+		r.Anchor(rule, "Node.getBestFastForwardResponse / fastForward")
+		return
+	}
+	cs := callsIn(gb, named(NODE+".Node.requestFastForward"))
+	if len(cs) == 0 {
+		r.Fail(rule, "getBestFastForwardResponse:requests", p.pos(gb.Pos()), fnName(gb), "no fast-forward request is sent")
+	}
+	for i, c := range cs {
+		t := argN(c, 0)
+		src, _ := loopSource(gb, c.Block())
+		ok := t != nil && flowsFromField(t, "NetAddr") && src != nil && flowsFromField(src, "Peers") && depOnCall(src, func(f *types.Func) bool { return f.Name() == "getPeers" })
+		r.Check(ok, rule, fmt.Sprintf("getBestFastForwardResponse:request#%d:target-is-own-peer", i), p.ipos(c), fnName(gb), "requests go to the addresses of peerSelector.getPeers()", "a fast-forward request is sent to an address that does not come from the node's own peer list")
+	}
+	// every returned response is one of the answers
+	okRet := true
+	for _, b := range gb.Blocks {
+		if ret, isRet := b.Instrs[len(b.Instrs)-1].(*ssa.Return); isRet && (b.Index == 0 || len(b.Preds) > 0) {
+			v := ret.Results[0]
+			if isNilConst(v) {
+				continue
+			}
+			if !dependsOn(v, func(x ssa.Value) bool { _, _, ok := isCallTo(x, named(NODE+".Node.requestFastForward")); return ok }) {
+				okRet = false
+			}
+		}
+	}
+	r.Check(okRet, rule, "getBestFastForwardResponse:returns-an-answer", p.pos(gb.Pos()), fnName(gb), "the best response is one of the peers' answers", "getBestFastForwardResponse can return something that is not a peer's answer")
+	for _, c := range callsIn(nf, named(NODE+".core.fastForward")) {
+		ok := depOnCall(argN(c, 0), named(NODE+".Node.getBestFastForwardResponse")) && depOnCall(argN(c, 1), named(NODE+".Node.getBestFastForwardResponse"))
+		r.Check(ok, rule, "Node.fastForward:adopts-best-response", p.ipos(c), fnName(nf), "block and frame handed to the core are the selected answer's", "core.fastForward is given a block/frame that is not the selected peer answer")
 	}
 }
